@@ -44,7 +44,7 @@ REQUIRED = {
             "spheres_1+": 30, "edges_1+": 30, "writes_2+": 40, "cfg_spheres_and_nodal_and_rewrite": 10,
             "cfg_highorder_spheres": 10, "cfg_cellfields_and_edges": 10, "cfg_bare": 4, "cfg_uint64_padded": 4,
             "kind_SCALARS": 40, "kind_VECTORS": 40, "kind_TENSORS": 40, "container_jax": 20, "parser_selftest_runs": 1,
-            "class:random": 10, "class:d11a_rewrite": 4, "class:d11b_highorder_spheres": 4, "class:d11c_celldata_edges": 4,
+            "class:random": 10, "class:large_tables": 2, "class:d11a_rewrite": 4, "class:d11b_highorder_spheres": 4, "class:d11c_celldata_edges": 4,
             "class:each_dtype": 11, "class:uint64_padded": 2, "class:bare": 2, "class:history": 10,
             "histories": 60, "histories_two_writers_interleaved": 10, "history_ops": 250,
             "write_after_nodal": 20, "write_after_cell": 20, "write_after_overwrite": 8, "write_after_sphere": 15,
@@ -78,6 +78,12 @@ def build_cases(tier, seed):
     add("history", 24 if q else 6000, 4)
     add("uint64_padded", 4 if q else 60, 4)
     add("bare", 4 if q else 16, 2)
+    # size class: tables with more rows than any power-of-two block size an implementation might use (8k, 16k, 64k rows),
+    # reached through many points/cells and through TENSORS arrays (3 rows per record)
+    sizes = [(95, 96), (64, 65)] if q else [(95, 96), (64, 65), (129, 128), (182, 181), (257, 256), (46, 60), (31, 89)]
+    for i, (nx, ny) in enumerate(sizes):
+        cases.append({"cls": "large_tables", "group": "large%d" % i, "seed": derive_seed(seed, PROPERTY, "large_tables", i), "ncfg": 1,
+                      "cost": 12, "nx": nx, "ny": ny})
     # every data type x field kind x nodal/cell at least once, without any padding
     for rep in range(1 if q else 12):
         for i, dt in enumerate(DTYPES):
@@ -146,6 +152,10 @@ def _make_field(rng, nrec, kind, dt):
 def _mesh_for(case, rng):
     from vlib.gen import meshes
     cls = case["cls"]
+    if cls == "large_tables":
+        spec = {"kind": "structured", "nx": int(case["nx"]), "ny": int(case["ny"]), "order": 1, "bubble": False,
+                "xext": [0.0, float(rng.uniform(1, 4))], "yext": [float(rng.uniform(-2, 0)), 1.0]}
+        return meshes.build(spec, rng), spec
     if cls == "d11b_highorder_spheres":
         order = int(rng.choice([3, 4]))
     elif cls == "d11a_rewrite":
@@ -185,6 +195,9 @@ def _config_for(case, rng, order):
         cfg.update(n_sph=0, n_writes=1, n_cell=int(rng.integers(1, 4)), n_edges=int(rng.integers(1, 6)))
     elif cls == "bare":
         cfg.update(n_nodal=0, n_cell=0, n_sph=0, n_edges=0)
+    elif cls == "large_tables":
+        cfg.update(n_nodal=3, n_cell=2, n_sph=int(rng.integers(0, 3)), n_edges=int(rng.integers(0, 3)), n_writes=1, kinds_cycle=True,
+                   dtypes=["DOUBLE", "INT"])
     elif cls == "each_dtype":
         cfg.update(n_nodal=3, n_cell=3, n_sph=0, n_edges=0, dtypes=[case["dtype"]], kinds_cycle=True)
     elif cls == "uint64_padded":
